@@ -353,6 +353,15 @@ class XPathContext:
         """
         if varnames is None:
             varnames = []
+
+        def evaluated(selector: Callable[[Any], Any]) -> Callable[[Any], Any]:
+            # evaluate a range expression completely when it is started, so that an inner
+            # focus (predicates, '!') is not left active while other expressions are evaluated
+            def select(context: Any) -> Iterator[Any]:
+                yield from list(selector(context))
+            return select
+
+        selectors = [evaluated(x) for x in selectors]
         iterators = [x(self) for x in selectors]
         dimension = len(iterators)
         prod = [None] * dimension
